@@ -60,6 +60,7 @@ class Table:
         self.pending_bytes = 0
         self.pending_spec = []
         self.pending_spec_bytes = 0
+        self.unsup_low = set()   # low hash digits of strings whose format is outside the modelled fragment
 
     def replay_ref(self):
         return dict(table_name=self.name) if self.source is None else dict(table_name=self.name, table_lines=self.source)
@@ -410,7 +411,7 @@ def synthetic_tables(rng, tmpdir, n_tables):
     """string files built so that exact / last-partial / unknown lookups all occur and the order matters"""
     tables = []
     for t in range(n_tables):
-        lines, hashes = [], []
+        lines, hashes, unsup = [], [], set()
         low_groups = [rng.randrange(100000) for _ in range(6)]
         for g, low in enumerate(low_groups):
             # several candidates with the same low digits; the exact one sits first, in the middle or last
@@ -424,6 +425,8 @@ def synthetic_tables(rng, tmpdir, n_tables):
                 nconv = rng.randrange(0, 7)
                 r = rng.random()
                 fmt = gen_unsupported_fmt(rng) if r < 0.03 else gen_fmt(rng, nconv, bad=r > 0.93)
+                if r < 0.03:
+                    unsup.add(h % 100000)
                 lines.append("%s%d%s||%s||%s" % (rng.choice(("", "", " ", "00")), h, rng.choice(("", "", " ")), fmt,
                                                rng.choice(("file.cpp(%d)" % (h // 100000), "a||b.c(1)", "", "ü.cpp(2)"))))
                 hashes.append(h)
@@ -439,12 +442,15 @@ def synthetic_tables(rng, tmpdir, n_tables):
             lines.insert(rng.randrange(len(lines) + 1), j)
         path = write_string_file(tmpdir, "synth%d" % t, lines)
         tables.append(Table("synth%d" % t, path, source=lines))
+        tables[-1].unsup_low = unsup
     return tables
 
 
 def pick_hash(rng, table, mode):
-    """-> (hash, class) with class in exact / partial / unknown, judged by the re-stated property"""
+    """a hash value that has an exact / only partial / no match in the table"""
     hs = [s[0] for s in table.tbl]
+    if table.unsup_low and rng.random() < 0.97:             # rarely pick strings the model does not cover
+        hs = [h for h in hs if h % 100000 not in table.unsup_low]
     small = [h for h in hs if h < (1 << 32)]
     if mode == "exact" and small:
         return rng.choice(small)
